@@ -34,6 +34,8 @@ def check(ctx):
   ctx.rule('C14.R5', 'wrap: TimeoutError untouched, otherwise ScalesError(inner, text) when a stack was captured; caller gets set_exception of it')
   ctx.decline('agreement with the Thrift library codec for every value (delegated to generated write/read) and processor-side decoding are not decided')
   r1(ctx)
+  ser_ = prog.func('scales/thrift/serializer.py', 'MessageSerializer.SerializeThriftCall')
+  wire.fresh_stream_rules(ctx, 'C14.R1', prog.func(TS, 'ThriftSerializerSink.AsyncProcessRequest'), [ser_])
   default_protocol(ctx)
   wire.complete_write_rules(ctx, 'C14.R1')
   r2(ctx)
